@@ -207,3 +207,162 @@ def from_signed(R, I, tier):
             R.obligation(f'{label}<{T}>: sha256 = SHA-256 of the kept buffer', s.pc, z3.BoolVal(bool(good)), group='from_signed/digest')
         R.reach_any(f'{label}<{T}>: success reachable', [s.pc for s in oks])
         R.samples.append({'case': f'{label}<{T}>', 'paths': len(done)})
+
+# ------------------------------------------------------------------ RepositoryEditor::update_delegated_targets
+def update_delegated(R, I, tier):
+    """incoming metadata for an existing role replaces it only if it meets the delegating role's key threshold and does not lower the version"""
+    fn = None
+    for n, fs in I.funcs.items():
+        if 'editor/mod.rs' in n and n.endswith('>::update_delegated_targets'): fn = fs[0]
+    if fn is None: raise Stuck('update_delegated_targets not found')
+    cases = [('A', 'delegated by targets'), ('C', 'delegated by A'), ('targets', 'top-level')]
+    if tier == 'quick': cases = cases[:2] + cases[2:]
+    for name, what in cases:
+        for sub in ('none-new', 'one-new'):
+            label = f'update_delegated_targets[{name} ({what}), incoming delegates {"nothing new" if sub == "none-new" else "one role not loaded yet"}]'
+            st = State(); st.env['fs'] = {}
+            W = {'in_roles': {}}
+            tree = editor.mk_tree([('A', [('C', [])]), ('B', [])])
+            top = editor.mk_targets_doc(st, tree, W)
+            # give every Delegations object an id so that the verification oracle can say which one was consulted
+            def tag_delegs(doc, owner):
+                d = fld(doc, 'Targets', 'delegations')
+                if isinstance(d.discr, int) and d.discr == 1:
+                    dg = d.fields[('Some', 0)]; dg.fields[(None, 'owner')] = owner
+                    for c in fld(dg, 'Delegations', 'roles').d['elems']:
+                        r = st.heap[c]; t = fld(r, 'DelegatedRole', 'targets')
+                        if t.discr == 1: tag_delegs(fld(t.fields[('Some', 0)], 'Signed', 'signed'), fld(r, 'DelegatedRole', 'name').d['s'])
+            top.fields[(None, F('Targets', 'delegations'))].discr = 1
+            tag_delegs(top, 'targets')
+            cur_ver = {'targets': z3.BitVec('ver_targets', 64), 'A': z3.BitVec('ver_A', 64), 'C': z3.BitVec('ver_C', 64)}[name]
+            in_ver = z3.BitVec('incoming_version', 64)
+            kept = 'C' if name == 'A' else ('A' if name == 'targets' else None)      # a sub-role of the incoming document that is already loaded
+            roles_in = []
+            if kept: roles_in.append(kept)
+            if sub == 'one-new': roles_in.append('NEW')
+            def mk_incoming(s):
+                elems = [s.alloc(Adt('DelegatedRole', None, {(None, F('DelegatedRole', 'name')): Obj('str', s=rn), (None, F('DelegatedRole', 'keyids')): Obj('keyids', uid=f'in-{rn}'),
+                                                            (None, F('DelegatedRole', 'threshold')): BV64(1), (None, F('DelegatedRole', 'paths')): Obj('pathset', uid=f'in-{rn}'), (None, F('DelegatedRole', 'terminating')): z3.BoolVal(False),
+                                                            (None, F('DelegatedRole', 'targets')): mk_none()})) for rn in roles_in]
+                dg = Adt('Delegations', None, {(None, F('Delegations', 'keys')): Obj('keytable', uid='incoming'), (None, F('Delegations', 'roles')): Obj('vec', elems=elems), (None, 'owner'): 'INCOMING'})
+                doc = Adt('Targets', None, {(None, F('Targets', 'version')): in_ver, (None, F('Targets', 'delegations')): Adt('Option<Delegations>', z3.If(z3.Bool('incoming_has_delegations'), BV64(1), BV64(0)), {('Some', 0): dg}),
+                                            (None, F('Targets', 'targets')): Obj('fmap', f=lambda k: stdm.V0()), (None, F('Targets', '_extra')): Obj('fmap', f=lambda k: stdm.V0()), (None, 'uid'): 'INCOMING'})
+                return Adt('Signed', None, {(None, F('Signed', 'signed')): doc, (None, F('Signed', 'signatures')): Obj('signatures', uid='incoming')})
+            def mk_new_role(s):
+                doc = Adt('Targets', None, {(None, F('Targets', 'version')): z3.BitVec('new_role_version', 64), (None, F('Targets', 'delegations')): mk_none(), (None, F('Targets', 'targets')): Obj('fmap', f=lambda k: stdm.V0()),
+                                            (None, F('Targets', '_extra')): Obj('fmap', f=lambda k: stdm.V0()), (None, 'uid'): 'NEWROLE'})
+                return Adt('Signed', None, {(None, F('Signed', 'signed')): doc, (None, F('Signed', 'signatures')): Obj('signatures', uid='newrole')})
+            RE = 'RepositoryEditor'
+            ed = Adt(RE, None, {(None, F(RE, 'signed_root')): Adt('SignedRole', None, {(None, F('SignedRole', 'signed')): Adt('Signed', None, {(None, F('Signed', 'signed')): Adt('Root', None, {(None, 'owner'): 'ROOT'})})}),
+                                (None, F(RE, 'signed_targets')): mk_some(Adt('Signed', None, {(None, F('Signed', 'signed')): top, (None, F('Signed', 'signatures')): Obj('signatures', uid='top')})),
+                                (None, F(RE, 'targets_editor')): mk_some(Obj('targets_editor')), (None, F(RE, 'transport')): mk_some(Adt('Box<dyn Transport>', None, {(None, 0): Ref(st.alloc(Obj('dyn_transport')))})),
+                                (None, F(RE, 'limits')): mk_some(Adt('Limits', None, {(None, F('Limits', 'max_targets_size')): z3.BitVec('max_targets_size', 64)}))})
+            before = stdm.deep_clone(I, st, top)
+            def m_parse_url(I_, s, fr, c, a, d, de, rb):
+                okf = z3.Bool(fresh_name('url_ok')); return Forks([(okf, mk_ok(Obj('url', base='U')), None), (z3.Not(okf), mk_err(error('UrlParse')), None)])
+            def m_enc(I_, s, fr, c, a, d, de, rb): return Obj('str', s=None, pieces=['{enc(%s)}' % dr(I_, s, a[0]).d.get('s')])
+            def m_join(I_, s, fr, c, a, d, de, rb):
+                okf = z3.Bool(fresh_name('join_ok')); return Forks([(okf, mk_ok(Obj('url', base='U', file=path_key(I_, s, a[1]))), None), (z3.Not(okf), mk_err(Obj('url_parse_error')), None)])
+            def m_fetch(I_, s, fr, c, a, d, de, rb): return leaf_future('c10_fetch', url=dr(I_, s, a[1]).d.get('file'), max_size=mat(I_, s, a[2]))
+            def op_fetch(I_, s, fut):
+                okf = z3.Bool(fresh_name('fetch_ok'))
+                return Forks([(okf, mk_ready(mk_ok(Obj('stream', url=fut.d['url']))), lambda s2: s2.events.append(('fetch', fut.d['url'], fut.d['max_size']))), (z3.Not(okf), mk_ready(mk_err(error('Transport'))), None)])
+            LEAF_OPS['c10_fetch'] = op_fetch
+            def m_into_vec(I_, s, fr, c, a, d, de, rb): return leaf_future('c10_into_vec', url=dr(I_, s, a[0]).d['url'])
+            def op_into_vec(I_, s, fut):
+                okf = z3.Bool(fresh_name('body_ok'))
+                return Forks([(okf, mk_ready(mk_ok(Obj('vec', content=('remote', fut.d['url'])))), None), (z3.Not(okf), mk_ready(mk_err(Obj('terror', tkind=None))), None)])
+            LEAF_OPS['c10_into_vec'] = op_into_vec
+            def m_from_slice(I_, s, fr, c, a, d, de, rb):
+                v = dr(I_, s, a[0]); url = v.d['content'][1]; okf = z3.Bool(fresh_name('parse_ok'))
+                doc = mk_incoming(s) if url == '{enc(%s)}.json' % name else (mk_new_role(s) if url == '{enc(NEW)}.json' else None)
+                if doc is None: raise Stuck('parse of unexpected file ' + str(url))
+                return Forks([(okf, mk_ok(doc), None), (z3.Not(okf), mk_err(Obj('serde_error')), None)])
+            def m_verify(I_, s, fr, c, a, d, de, rb):
+                holder = dr(I_, s, a[0]); doc = dr(I_, s, a[1]); nm = dr(I_, s, a[2]).d.get('s') if len(a) > 2 else 'targets'
+                okf = z3.Bool(fresh_name('verified'))
+                ev = ('verify', holder.fields.get((None, 'owner')), fld(doc, 'Signed', 'signed').fields.get((None, 'uid')), nm)
+                return Forks([(okf, mk_ok(unit()), lambda s2: s2.events.append(ev + (True,))), (z3.Not(okf), mk_err(error('schema/VerifyMetadata')), lambda s2: s2.events.append(ev + (False,)))])
+            def m_str_eq(I_, s, fr, c, a, d, de, rb):
+                x = dr(I_, s, a[0]); y = dr(I_, s, a[1])
+                if x.d.get('s') is None or y.d.get('s') is None: raise Stuck(f'string comparison {x!r} == {y!r}')
+                return z3.BoolVal(x.d['s'] == y.d['s'])
+            def m_ge(I_, s, fr, c, a, d, de, rb): return z3.UGE(dr(I_, s, a[0]), dr(I_, s, a[1]))
+            def h_find(I_, s, fr):
+                d = fr.data
+                if 'ret' in d:
+                    hit = d.pop('ret'); hit = hit if z3.is_expr(hit) else z3.BoolVal(bool(hit)); hs = z3.simplify(hit)
+                    if z3.is_true(hs): I_.do_return(s, mk_some(Ref(d['elems'][d['i']]))); return [s]
+                    if not z3.is_false(hs): raise Stuck('find: symbolic predicate')
+                    d['i'] += 1
+                if d['i'] >= len(d['elems']): I_.do_return(s, mk_none()); return [s]
+                fnc = I_.resolve_closure(s.heap[d['clos']].ty)
+                I_.push_call(s, fnc, [Ref(d['clos']), Ref(s.alloc(Ref(d['elems'][d['i']])))], None, None); return [s]
+            def m_find(I_, s, fr, c, a, d, de, rb):
+                it = dr(I_, s, a[0]); vec = dr(I_, s, it.d['vec'])
+                s.frames.append(ModelFrame(h_find, {'elems': list(vec.d['elems'][it.d['pos']:]), 'i': 0, 'clos': s.alloc(mat(I_, s, a[1]))}, de, rb)); return PUSHED
+            ms = [(RXc(r'^editor::parse_url$'), m_parse_url), (RXc(r'^encode_filename::<'), m_enc), (RXc(r'^Url::join$'), m_join), (RXc(r'^fetch_max_size$'), m_fetch),
+                  (RXc(r'as IntoVec<TransportError>>::into_vec'), m_into_vec), (RXc(r'^from_slice::<'), m_from_slice), (RXc(r'^verify::<impl (Delegations|Root)>::verify_role'), m_verify),
+                  (RXc(r'^<&str as PartialEq>::eq$|^<std::string::String as PartialEq(<&str>)?>::eq$'), m_str_eq), (RXc(r'^<NonZero<u64> as PartialOrd>::ge$'), m_ge),
+                  (RXc(r'^<std::slice::IterMut<.*> as Iterator>::find::<'), m_find), (RXc(r'^core::slice::<impl \[.*\]>::iter_mut$'), stdm.m_vec_iter), (RXc(r'^<&mut Vec<.*> as IntoIterator>::into_iter$'), stdm.m_vec_iter),
+                  (RXc(r'^<std::slice::IterMut<.*> as Iterator>::next$'), stdm.m_iter_next), (RXc(r'^<Vec<.*> as DerefMut>::deref_mut$'), m_identity), (RXc(r'^<Box<dyn Transport> as AsRef<dyn Transport>>::as_ref$'), m_identity),
+                  (RXc(r'^<str as ToString>::to_string$'), lambda I_, s, fr, c, a, d, de, rb: clone(dr(I_, s, a[0]))), (RXc(r'^<Url as Clone>::clone$'), stdm.m_clone_deep)] + editor.install_format_models() + stdm.STD_MODELS
+            saved = list(I.models); I.models[:0] = ms
+            try:
+                cell = st.alloc(ed)
+                st.frames.append(ModelFrame(h_async_driver, {'phase': 0, 'ctor': fn, 'args': [Ref(cell), Obj('str', s=name), Obj('str', s='http://incoming/')], 'generics': None}))
+                done = []; I.run(st, done.append)
+            finally:
+                I.models[:] = saved
+            R.check_interp_clean(I, label)
+            oks = []
+            def role_in(s, doc, rn):
+                """Signed<Targets> stored for role rn below doc"""
+                d = fld(doc, 'Targets', 'delegations')
+                if not (isinstance(d.discr, int) and d.discr == 1) and not z3.is_true(z3.simplify(d.discr == 1) if z3.is_expr(d.discr) else False):
+                    if isinstance(d.discr, int): return None
+                for c in fld(d.fields[('Some', 0)], 'Delegations', 'roles').d['elems']:
+                    r = s.heap[c]; t = fld(r, 'DelegatedRole', 'targets')
+                    if fld(r, 'DelegatedRole', 'name').d['s'] == rn: return t
+                    if isinstance(t.discr, int) and t.discr == 1:
+                        x = role_in(s, fld(t.fields[('Some', 0)], 'Signed', 'signed'), rn)
+                        if x is not None: return x
+                return None
+            for s in done:
+                R.paths += 1
+                tag, _ = classify(s.result)
+                edv = s.heap[cell]; stg = fld(edv, RE, 'signed_targets')
+                cur_top = fld(stg.fields[('Some', 0)], 'Signed', 'signed')
+                ver = [e for e in s.events if e[0] == 'verify']
+                def dec(m, label=label): return {'kind': 'update_delegated_targets', 'case': label, 'incoming_version': m.eval(in_ver, model_completion=True).as_long(), 'current_version': m.eval(cur_ver, model_completion=True).as_long()}
+                if tag != 'Ok':
+                    out = []; editor.same(s, cur_top, s, before, out, 'signed_targets')
+                    R.obligation(f'{label}: a refused update leaves the repository metadata as it was', s.pc, editor.conj(out), decode=dec, group='update/refusal-no-effect')
+                    continue
+                oks.append(s)
+                parent = {'A': 'targets', 'C': 'A', 'targets': 'ROOT'}[name]
+                R.obligation(f'{label}: accepted => the incoming document was verified, successfully, against the delegating role ({parent}) under this role name', s.pc,
+                             z3.BoolVal(any(e[1] == parent and e[2] == 'INCOMING' and e[3] == name and e[4] for e in ver)), decode=dec, group='update/verified-by-parent')
+                R.obligation(f'{label}: accepted => the version is not lowered', s.pc, z3.UGE(in_ver, cur_ver), decode=dec, group='update/no-downgrade')
+                stored = cur_top if name == 'targets' else None
+                if name != 'targets':
+                    t = role_in(s, cur_top, name)
+                    stored = fld(t.fields[('Some', 0)], 'Signed', 'signed') if t is not None and t.discr == 1 else None
+                R.obligation(f'{label}: accepted => the stored role is the incoming document', s.pc, z3.BoolVal(stored is not None and stored.fields.get((None, 'uid')) == 'INCOMING'), decode=dec, group='update/replaced')
+                if stored is not None and stored.fields.get((None, 'uid')) == 'INCOMING':
+                    if kept:
+                        t = role_in(s, stored, kept); orig = role_in(s, before, kept)
+                        out = []
+                        if t is None or orig is None or t.discr != 1: out.append((False, 'kept role missing'))
+                        else: editor.same(s, t.fields[('Some', 0)], s, orig.fields[('Some', 0)], out, kept)
+                        R.obligation(f'{label}: roles the incoming document still delegates to keep their loaded metadata', s.pc, editor.conj(out), decode=dec, group='update/sub-roles')
+                    if sub == 'one-new':
+                        t = role_in(s, stored, 'NEW')
+                        got_new = t is not None and t.discr == 1 and fld(t.fields[('Some', 0)], 'Signed', 'signed').fields.get((None, 'uid')) == 'NEWROLE'
+                        R.obligation(f'{label}: a newly delegated role is loaded and verified against the incoming document\'s own delegations', s.pc,
+                                     z3.BoolVal(bool(got_new) and any(e[1] == 'INCOMING' and e[2] == 'NEWROLE' and e[3] == 'NEW' and e[4] for e in ver)), decode=dec, group='update/new-sub-roles')
+                R.obligation(f'{label}: the open targets editor is dropped', s.pc, z3.BoolVal(fld(edv, RE, 'targets_editor').discr == 0), decode=dec, group='update/editor-cleared')
+                for e in [e for e in s.events if e[0] == 'fetch']:
+                    R.obligation(f'{label}: every download is bounded by max_targets_size', s.pc, e[2] == z3.BitVec('max_targets_size', 64), decode=dec, group='update/bounded')
+            R.reach_any(f'{label}: acceptance reachable', [s.pc for s in oks])
+            R.samples.append({'case': label, 'paths': len(done), 'accepted': len(oks)})
